@@ -302,6 +302,7 @@ func genC07() {
 			fail("%s: no tarEntry parameter", c.where)
 		}
 		c.role[param] = "new"
+		existingVar := "" // the node found under the name: the root of `<x>.te`
 		start := -1
 		for i, st := range fd.Body.List {
 			if as, ok := st.(*ast.AssignStmt); ok && len(as.Lhs) == len(as.Rhs) {
@@ -317,8 +318,9 @@ func genC07() {
 							c.role[id.Name] = rl // another name for the same entry
 						}
 					}
-					if _, p := c07Sel(as.Rhs[k]); len(p) == 1 && p[0] == "te" {
+					if root, p := c07Sel(as.Rhs[k]); len(p) == 1 && p[0] == "te" {
 						c.role[id.Name] = "old"
+						existingVar = root
 					}
 				}
 			}
@@ -342,6 +344,10 @@ func genC07() {
 							return true, "OOverwrite"
 						}
 					}
+					// ... or the node found under the name is re-pointed in place
+					if root, p := c07Sel(as.Lhs[0]); existingVar != "" && root == existingVar && len(p) == 1 {
+						return true, "OOverwrite"
+					}
 				}
 				return false, ""
 			})
@@ -351,7 +357,72 @@ func genC07() {
 			}
 			g.def("c07_writeheader_rows", "list (ccond * cout)", "["+strings.Join(rows, "; ")+"]", "tests of writeHeader in source order, from "+g.pos(fd.Body.List[start]))
 			g.def("c07_writeheader_default", "cout", def, "when no test fires")
+			// how an allowed replacement is carried out: a NEW node stored under the name in the
+			// parent's children map, and no field of the node found there assigned to
+			fresh, stored := "", false
+			var mutated []string
+			for _, st := range fd.Body.List[start:] {
+				as, ok := st.(*ast.AssignStmt)
+				if !ok || len(as.Lhs) != 1 || len(as.Rhs) != 1 {
+					continue
+				}
+				if u, ok := as.Rhs[0].(*ast.UnaryExpr); ok && u.Op == token.AND {
+					if cl, ok := u.X.(*ast.CompositeLit); ok && exprText(cl.Type) == "node" {
+						if id, ok := as.Lhs[0].(*ast.Ident); ok {
+							fresh = id.Name
+						}
+					}
+				}
+				if ix, ok := as.Lhs[0].(*ast.IndexExpr); ok && strings.HasSuffix(exprText(ix.X), ".children") {
+					if id, ok := as.Rhs[0].(*ast.Ident); ok && fresh != "" && id.Name == fresh {
+						stored = true
+					}
+				}
+				if root, p := c07Sel(as.Lhs[0]); existingVar != "" && root == existingVar && len(p) == 1 {
+					mutated = append(mutated, p[0])
+				}
+			}
+			sort.Strings(mutated)
+			mq := make([]string, len(mutated))
+			for i, f := range mutated {
+				mq[i] = coqStr(f)
+			}
+			g.def("c07_lazy_replace_allocates", "bool", map[bool]string{true: "true", false: "false"}[stored && len(mutated) == 0],
+				"writeHeader replaces an entry by storing a NEW node under the name (children[base] = &node{...}) and assigns to no field of the node that was there")
+			g.def("c07_lazy_replace_mutates", "list string", "["+strings.Join(mq, "; ")+"]", "fields of the node found under the name that writeHeader assigns to")
 		}
+	}
+	// ---- link: the new name is bound to the target's node itself -------------------
+	for _, lf := range []struct{ coq, rel, fn string }{{"c07_tarfs_link_binds_target", "pkg/tarfs/fs.go", "link"}, {"c07_memfs_link_binds_target", "pkg/apk/fs/memfs.go", "Link"}} {
+		fd := findFunc(lf.rel, "memFS", lf.fn)
+		if fd == nil || fd.Type.Params == nil || len(fd.Type.Params.List) == 0 || len(fd.Type.Params.List[0].Names) == 0 {
+			fail("%s:%s: not found", lf.rel, lf.fn)
+			continue
+		}
+		oldParam := fd.Type.Params.List[0].Names[0].Name
+		targetVar, binds := "", false
+		ast.Inspect(fd, func(n ast.Node) bool {
+			as, ok := n.(*ast.AssignStmt)
+			if !ok || len(as.Rhs) != 1 {
+				return true
+			}
+			// target, err := m.getNode(oldname)
+			if call, ok := as.Rhs[0].(*ast.CallExpr); ok && strings.HasSuffix(exprText(call.Fun), ".getNode") && len(call.Args) == 1 && exprText(call.Args[0]) == oldParam {
+				if id, ok := as.Lhs[0].(*ast.Ident); ok {
+					targetVar = id.Name
+				}
+			}
+			// parent.children[base] = target
+			if len(as.Lhs) == 1 {
+				if ix, ok := as.Lhs[0].(*ast.IndexExpr); ok && strings.HasSuffix(exprText(ix.X), ".children") {
+					if id, ok := as.Rhs[0].(*ast.Ident); ok && targetVar != "" && id.Name == targetVar {
+						binds = true
+					}
+				}
+			}
+			return true
+		})
+		g.def(lf.coq, "bool", map[bool]string{true: "true", false: "false"}[binds], lf.rel+":"+lf.fn+" stores the node getNode(oldname) returned under the new name (a second name for one node, not a copy)")
 	}
 	// ---- installRegularFile ----------------------------------------------------
 	if fd := findFunc("pkg/apk/apk/install.go", "APK", "installRegularFile"); fd != nil && fd.Type.Params != nil {
